@@ -127,6 +127,55 @@ Proof. exact idnonce_distinct_under_fresh_oracle. Qed.
 Print Assumptions C19_idnonce_distinct_under_fresh_oracle.
 
 (* ------------------------------------------------------------------------------------------ *)
+(* trace level (Proofs/HandlerB_Trace*.v) *)
+From Discv5V Require Import Proofs.HandlerB_Trace Proofs.HandlerB_Trace2 Proofs.HandlerB_Trace3 Proofs.HandlerB_TraceEx.
+
+(* no_nonce_reuse_partial.  [NoReuse W]: any two message packets (PMsg) in W whose bodies are ciphertexts
+   under the same key with the same nonce are the same packet.  In any run from the initial state, over
+   ALL datagrams emitted in all steps: two message packets under the same key and nonce are
+   byte-identical retransmissions - for every behaviour of the random number generator as far as the
+   8 random nonce bytes are concerned (the distinctness comes from the counter).
+   Hypothesis [fresh_installs]: key terms are not installed twice - the two keys installed by each
+   accepted handshake (a function of the peer's ephemeral key and OUR challenge data, which contains
+   the random id-nonce and IV) and by each answered WHOAREYOU (a function of OUR ephemeral key and the
+   peer's challenge data) have never been installed in a session before.  This follows from the
+   freshness of the (eph, cd) draws of distinct handshakes: a hypothesis on the oracle.
+   Partial because (1) of that hypothesis and (2) handshake packets, whose message is encrypted under
+   the new key with a raw random 12-byte nonce, are not covered: that their nonce differs from the later
+   counter nonces under the same key is again a statement about the random number generator. *)
+Theorem C19_no_nonce_reuse_partial :
+  forall c evs, fresh_installs c init_state [] evs -> NoReuse (concat (snd (run c init_state evs))).
+Proof. exact no_nonce_reuse_partial. Qed.
+Print Assumptions C19_no_nonce_reuse_partial.
+
+Theorem C19_no_nonce_reuse_packets :
+  forall c evs d1 d2 s1 n1 a1 s2 n2 a2 k n m m' a a',
+  fresh_installs c init_state [] evs ->
+  let W := concat (snd (run c init_state evs)) in
+  In (OWire d1 (PMsg s1 n1 a1 (CEnc k n m a))) W ->
+  In (OWire d2 (PMsg s2 n2 a2 (CEnc k n m' a'))) W ->
+  PMsg s1 n1 a1 (CEnc k n m a) = PMsg s2 n2 a2 (CEnc k n m' a').
+Proof. exact no_nonce_reuse_packets. Qed.
+Print Assumptions C19_no_nonce_reuse_packets.
+
+(* the counter bound behind it: every message ciphertext ever emitted under a key of a live session has
+   a counter not above that session's counter (so the next encryption, at counter + 1, is new) *)
+Theorem C19_emitted_counters_bounded :
+  forall c evs k cnt na se,
+  fresh_installs c init_state [] evs ->
+  Used (concat (snd (run c init_state evs))) k cnt ->
+  In (na, se) (sessions (fst (run c init_state evs))) -> In k (sess_keys se) ->
+  cnt <= s_counter se.
+Proof. exact emitted_counters_bounded. Qed.
+Print Assumptions C19_emitted_counters_bounded.
+
+(* the hypothesis is satisfiable: a run with an incoming and an outgoing handshake *)
+Example C19_example_fresh_run :
+  fresh_installs ex_cfg init_state [] evs_both /\ NoReuse (concat (snd (run ex_cfg init_state evs_both))).
+Proof. split; [exact evs_both_fresh | exact evs_both_no_reuse]. Qed.
+Print Assumptions C19_example_fresh_run.
+
+(* ------------------------------------------------------------------------------------------ *)
 (* example: the session created by the handshake has counter 0; the response is encrypted with nonce
    (1, r) under the recipient key and the stored counter becomes 1 *)
 Example C19_example_counter :
